@@ -2,39 +2,85 @@ import STProofs.CubicKKT
 import STProofs.QuinticKKT
 import STProofs.SepticKKT
 import STProofs.EnergyIntegral
-import Mathlib.Analysis.Calculus.ContDiff.Basic
+import STProofs.CubicMinimal
+import STProofs.QuinticMinimal
+import STProofs.SepticMinimal
+import Mathlib.Analysis.Calculus.ContDiff.Deriv
 /-!
-# C02 — minimum acceleration / jerk / snap interpolant: optimality (KKT) conditions
+# C02 — minimum acceleration / jerk / snap interpolant (property theorems, every N, positive durations)
 
-Proved: for every N, every data — cubic: all conditions (interpolation, C¹, C², both boundary velocities) for every
-positive duration vector, unconditionally (`cubic_build_spec`; all pivots positive: `pivok_cubic`).
-Quintic / septic: interpolation, C¹–C² resp. C¹–C³ and the boundary states unconditionally (`STProofs.Hermite`);
-continuity of derivatives 3–4 resp. 4–6 under the explicit hypothesis that no block pivot is singular
-(`quintic_KKT_partial`, `septic_KKT_partial`; the row residual *is* the derivative jump: `*_row_identity`).
+All three parts of the property are theorems:
 
-`C02_minimiser` — the full variational statement — is stated below and NOT proved (no `sorry`: it is a `def … : Prop`).
-What is missing: (i) the pivot hypothesis for the quintic/septic for general N, (ii) the integration-by-parts argument
-that KKT implies minimality among all sufficiently smooth curves, (iii) uniqueness.
+* **optimality conditions**: interpolation, C¹…C^{s−1} and the boundary states (`cubic_build_spec`,
+  `quintic_build_hermite`, `septic_build_hermite`) and continuity of the derivatives s…2s−2 at every interior knot
+  (`cubic_build_spec`, `QuinticPiv.quintic_KKT`, `SepticPiv.septic_KKT`) — unconditionally, because no pivot of the block
+  elimination vanishes (`pivok_cubic`, `QuinticPiv.detOK_of_pos`, `SepticPiv.detOK_of_pos`);
+* **uniqueness**: any knot derivatives whose Hermite closure satisfies the optimality conditions are the computed ones
+  (`QuinticPiv.quintic_unique`, `SepticPiv.septic_unique`; cubic: the Thomas solve of a strictly diagonally dominant system);
+* **minimality among all sufficiently smooth curves**: `C02_minimiser_cubic` (for `C²` competitors, stated with
+  `ContDiff` / `deriv`), `CubicMin.cubic_minimal`, `QuinticMin.quintic_minimal`, `SepticMin.septic_minimal` (competitor
+  given by its derivative chain with a continuous top derivative).
 -/
 open ST
 
-/-- **the full variational statement (cubic instance), kept visible and NOT proved**: among all C² curves through the
-same waypoints at the same knot times with the same boundary velocities, the built spline has the least
-∫ (second derivative)² — the left-hand side is the reported energy, which `cubic_energy_total` identifies with the
-integral of the squared second derivative of the built pieces. -/
-def C02_minimiser_cubic : Prop :=
-  ∀ (h P : List ℝ) (v0 vn : ℝ), PosList h → h ≠ [] → P.length = h.length + 1 →
-    ∀ g : ℝ → ℝ, ContDiff ℝ 2 g →
-      (∀ i, i ≤ h.length → g ((cumulative (0:ℝ) h).getD i 0) = P.getD i 0) →
-      deriv g 0 = v0 → deriv g h.sum = vn →
-      Cubic.energy h (Cubic.build h P v0 vn) ≤ ∫ t in (0:ℝ)..h.sum, (deriv (deriv g) t) ^ 2
+theorem thru_of_getD (g : ℝ → ℝ) (a : ℝ) (h P : List ℝ) (hP : P.length = h.length + 1)
+    (hk : ∀ i, i ≤ h.length → g ((cumulative a h).getD i 0) = P.getD i 0) : CubicMin.Thru g a h P := by
+  induction h generalizing a P with
+  | nil =>
+    match P, hP with
+    | [p], _ => simpa [CubicMin.Thru, cumulative] using hk 0 (le_refl _)
+  | cons x xs ih =>
+    match P, hP with
+    | p0 :: p1 :: ps, hP =>
+      refine ⟨by simpa [cumulative] using hk 0 (Nat.zero_le _), ?_⟩
+      apply ih (a + x) (p1 :: ps) (by simpa using hP)
+      intro i hi
+      have := hk (i + 1) (by simp only [List.length_cons]; omega)
+      simpa [cumulative] using this
+
+/-- **the full variational statement (cubic)**: among all C² curves through the same waypoints at the same knot times
+with the same boundary velocities, the built spline has the least ∫ (second derivative)² — the left-hand side is the
+reported energy (`cubic_energy_total`: it *is* the integral of the squared second derivative of the built pieces). -/
+theorem C02_minimiser_cubic (h P : List ℝ) (v0 vn : ℝ) (hpos : PosList h) (hne : h ≠ []) (hP : P.length = h.length + 1)
+    (g : ℝ → ℝ) (hg : ContDiff ℝ 2 g)
+    (hk : ∀ i, i ≤ h.length → g ((cumulative (0:ℝ) h).getD i 0) = P.getD i 0)
+    (hv0 : deriv g 0 = v0) (hvn : deriv g h.sum = vn) :
+    Cubic.energy h (Cubic.build h P v0 vn) ≤ ∫ t in (0:ℝ)..h.sum, (deriv (deriv g) t) ^ 2 := by
+  have h2 : ContDiff ℝ (1 + 1) g := by rw [one_add_one_eq_two]; exact hg
+  obtain ⟨hd, -, h1⟩ := contDiff_succ_iff_deriv.mp h2
+  have h1' : ContDiff ℝ (0 + 1) (deriv g) := by rw [zero_add]; exact h1
+  obtain ⟨hd1, -, h0⟩ := contDiff_succ_iff_deriv.mp h1'
+  have comp : CubicMin.Comp g (deriv g) (deriv (deriv g)) :=
+    ⟨fun t => (hd t).hasDerivAt, fun t => (hd1 t).hasDerivAt, h0.continuous⟩
+  have := CubicMin.cubic_minimal h P v0 vn hpos hne hP g (deriv g) (deriv (deriv g)) comp 0
+    (thru_of_getD g 0 h P hP hk) hv0 (by simpa using hvn)
+  simpa using this
 
 theorem C02_cubic_partial {K : Type} [Field K] [LinearOrder K] [IsStrictOrderedRing K]
     (v0 vn : K) (h P : List K) (hp : PosList h) (hne : h ≠ []) (hlen : P.length = h.length + 1) :
     CubicSpec vn h P (Cubic.build h P v0 vn) ∧ ∀ p ps, Cubic.build h P v0 vn = p :: ps → ev1 p 0 = v0 :=
   cubic_build_spec v0 vn h P hp hne hlen
 
-/-- non-vacuity of the pivot hypothesis: a concrete quintic problem with 3 segments satisfies it -/
-example : QuinticK.QuinticPivOK ([1, 2, 1/2] : List ℚ) [0, 1, 3, 2] ⟨0, 0⟩ ⟨1, 0⟩ := by
-  simp only [QuinticK.QuinticPivOK, Quintic.rows, Quintic.mkSegs, Quintic.rowsAux, BPivOK]
-  refine ⟨?_, ?_, trivial⟩ <;> (apply M2.mul_inv; simp [M2.det, M2.sub_def, M2.mul_def, M2.inv, Quintic.blockD, Quintic.blockL, Quintic.blockU, Quintic.mkTP]; show ((_ : ℚ) ≠ 0); norm_num)
+/-- quintic: optimality conditions, unconditional -/
+theorem C02_quintic_KKT {K : Type} [Field K] [LinearOrder K] [IsStrictOrderedRing K]
+    (hs Ps : List K) (bL bR : V2 K) (hpos : ∀ h ∈ hs, 0 < h) (hP : Ps.length = hs.length + 1) :
+    QuinticK.JumpFree34 hs (Quintic.build hs Ps bL bR) :=
+  QuinticPiv.quintic_KKT hs Ps bL bR hpos hP
+
+/-- septic: optimality conditions, unconditional -/
+theorem C02_septic_KKT {K : Type} [Field K] [LinearOrder K] [IsStrictOrderedRing K]
+    (hs Ps : List K) (bL bR : V3 K) (hpos : ∀ h ∈ hs, 0 < h) (hP : Ps.length = hs.length + 1) :
+    SepticK.JumpFree456 hs (Septic.build hs Ps bL bR) :=
+  SepticPiv.septic_KKT hs Ps bL bR hpos hP
+
+/-- non-vacuity (minimality): the straight line through collinear waypoints is a competitor of the cubic theorem -/
+example : CubicMin.Comp (fun t => 2 * t) (fun _ => 2) (fun _ => 0) ∧
+    CubicMin.Thru (fun t => 2 * t) 0 [1, 2] [0, 2, 6] := by
+  refine ⟨⟨fun t => by simpa using (hasDerivAt_id t).const_mul (2:ℝ), fun t => hasDerivAt_const t (2:ℝ),
+    continuous_const⟩, ?_⟩
+  simp only [CubicMin.Thru]
+  norm_num
+
+/-- non-vacuity of the positivity hypothesis -/
+example : ∀ h ∈ ([1, 2, 1/2] : List ℚ), 0 < h := by
+  intro h hh; simp at hh; rcases hh with rfl | rfl | rfl <;> norm_num
